@@ -75,6 +75,7 @@ class SyncTasks(Tasks):
         """Set up Tasks."""
         super().__init__(*args, **kwargs)
         self._cancel_save = None
+        self._poll_thread = None
         self._stop_event = threading.Event()
 
     def add_job(self, func, *args):
@@ -89,8 +90,8 @@ class SyncTasks(Tasks):
     def start(self):
         """Start the connection to a transport."""
         self.transport.connect()
-        poll_thread = threading.Thread(target=self._poll_queue)
-        poll_thread.start()
+        self._poll_thread = threading.Thread(target=self._poll_queue)
+        self._poll_thread.start()
 
     def _poll_queue(self):
         """Poll the queue for work."""
@@ -129,6 +130,10 @@ class SyncTasks(Tasks):
         _LOGGER.info("Stopping gateway")
         self.transport.disconnect()
         self._stop_event.set()
+        poll_thread, self._poll_thread = self._poll_thread, None
+        if poll_thread is not None and poll_thread is not threading.current_thread():
+            # Let the poll thread finish its current job, so the final save sees the result.
+            poll_thread.join()
         if not self.persistence:
             return
         if self._cancel_save is not None:
